@@ -21,9 +21,15 @@ WEIRD = ['a b', 'a"b', 'a<b', '\u00e9', '', 'a&b', "a'b", 'a\x01', '\ud800', 'a\
 ILLEGAL_STRS = ['a\x00b', 'a\x01', '\x0b', '\x1f', '\ud800', '\ufffe', '\uffff', ']]>', '<![CDATA[x]]>',
                 '\r', '\u00e9\u20ac\U0001F600', ' lead', 'trail ', '&amp;']
 
+# namespaces inside path objects (the statement quantifies over "namespaces with unusual characters";
+# the empty namespace is the one value that is falsy but not None)
+PATH_NS = ['', '/', 'a//b', 'a b', 'a"<', '\u00e9']
+_IP_NS = [['ipath', 'Foo', [['k', ['s', 'x']]], ns, h] for ns in PATH_NS for h in (None, 'h')]
+_CP_NS = [['cpath', 'Foo', ns, h] for ns in PATH_NS for h in (None, 'h')]
+
 DOM = {
     'ClassName': [S('Foo'), ['cpath', 'Foo', None, None], ['cpath', 'Foo', 'a/b', None],
-                  ['cpath', 'Foo', 'a', 'h']] + [S(w) for w in WEIRD],
+                  ['cpath', 'Foo', 'a', 'h']] + [S(w) for w in WEIRD] + _CP_NS,
     'ClassNameOpt': [N, S('Foo'), ['cpath', 'Foo', 'a/b', None], ['cpath', 'Foo', 'a', 'h']] +
                     [S(w) for w in WEIRD[:4]],
     'namespace': [N, S('a'), S('a/b/c'), S('/a/'), S('a//b'), S('a b'), S('a"b<'), S('é'), S(''),
@@ -37,13 +43,13 @@ DOM = {
                      ['ipath', 'Foo', [['k', ['i', None, 5]], ['f', ['r', None, (1.5).hex()]]], None, None],
                      ['ipath', 'a b', [['k<', ['s', 'x']]], None, None],
                      ['ipath', 'Foo', None, None, None]] +
-                    [['ipath', 'Foo', [['k', S(w)]], None, None] for w in ILLEGAL_STRS],
+                    [['ipath', 'Foo', [['k', S(w)]], None, None] for w in ILLEGAL_STRS] + _IP_NS,
     'ObjectName': [IPATH0, S('Foo'), ['cpath', 'Foo', 'a/b', None], ['cpath', 'Foo', 'a', 'h'],
                    ['ipath', 'Foo', [['k', ['s', 'x']]], 'a/b', 'h'],
-                   ['ipath', 'Foo', [['k', S('a\x01')]], None, None], S('a b'), S('a\x01')],
+                   ['ipath', 'Foo', [['k', S('a\x01')]], None, None], S('a b'), S('a\x01')] + _IP_NS + _CP_NS,
     'MethodObjectName': [IPATH0, S('Foo'), ['cpath', 'Foo', 'a/b', None], ['cpath', 'Foo', 'a', 'h'],
                          ['ipath', 'Foo', [['k', ['s', 'a"b']], ['n', ['i', 'uint8', 1]]], 'a/b', 'h'],
-                         ['ipath', 'Foo', [['k', S('a\x01')]], None, None], S('a b')],
+                         ['ipath', 'Foo', [['k', S('a\x01')]], None, None], S('a b')] + _IP_NS + _CP_NS,
     'NewInstance': [INST0, INST0P,
                     ['inst', 'Foo', [['prop', 'p', N, {'type': 'string'}],
                                      ['prop', 'A', ['a', [['i', 'uint8', 1], N]], {'type': 'uint8'}],
